@@ -81,7 +81,9 @@ def labelled():
     for qy in ('from .', 'where size > 1', 'select from .', 'select', 'order by name', 'limit 1', 'into json', ',', 'select ,'):
         out.append(([qy], 'no-column', 'reject'))
     for qy in ("name from . where name =~ '(('", "name from . where name =~ '*'", "name from . where name !=~ '['",
-               "name from . where name =~ 'a{2,1}'"):
+               "name from . where name =~ 'a{2,1}'", "name from . where name like '((' or name =~ '(('",
+               "name from . where name = '*(' or name =~ '*('", "name from . where name like 'x(' or name !=~ 'x('",
+               "name from . where name = 'a[' or name like 'a[' or name =~ 'a['", "name from . where not name like '%(' and name =~ '%('"):
         out.append(([qy], 'bad-regex', 'diag'))
     for qy in ('name from . where modified > garbage', "name from . where modified = '2021-13-45'", "name from . where modified = '2021-01-01 25:00'",
                "name from . where modified = '2021-02-30'", "name from . where modified > '2021-01-01 10:61'",
